@@ -116,6 +116,7 @@ where
     let r = crate::util::catch(|| {
         let b = body.as_mut().unwrap();
         let mut consecutive_pending = 0u32;
+        let mut consecutive_empty = 0u32;
         loop {
             let h = b.size_hint();
             let is_end = b.is_end_stream();
@@ -131,8 +132,17 @@ where
             match ev {
                 Ev::Data(n) => {
                     consecutive_pending = 0;
+                    if n != 0 {
+                        consecutive_empty = 0;
+                    }
                     if n == 0 {
                         d.empty_frames += 1;
+                        consecutive_empty += 1;
+                        if consecutive_empty > 20_000 {
+                            // a body that yields empty frames forever: the harness's own budget
+                            d.terminal = Terminal::Stuck;
+                            return;
+                        }
                     }
                     d.total += n as u64;
                     if let Some(v) = data {
@@ -185,9 +195,13 @@ where
         }
     }
     d.wakes = cw.0.load(Ordering::SeqCst);
-    // A body that panicked may be in a broken state; dropping it must still not take the
-    // harness down.
-    let _ = crate::util::catch(move || drop(body.take()));
+    // A body that panicked may be in a broken state (poisoned lock): running its destructors can
+    // panic again, inside a destructor, which aborts the process. Leak it instead.
+    if matches!(d.terminal, Terminal::Panic(_)) || d.post.iter().any(|e| matches!(e, Ev::Panic(_))) {
+        std::mem::forget(body.take());
+    } else {
+        let _ = crate::util::catch(move || drop(body.take()));
+    }
     d
 }
 
